@@ -1,5 +1,5 @@
 """C08 — FairThreadPool: accepted jobs all run, rejected ones drop, Wait means done (structural clauses)."""
-from rules import lib_exec
+from rules import lib_exec, lib_list
 
 
 def run(ctx):
@@ -13,8 +13,19 @@ def run(ctx):
     rc = ctx.rule('R-COUNT', 'packed job counter: unit == 1 << NoJobs shift, flag bits below it, +unit exactly on '
                   'the accepted path, -unit after every Called job before the count is read again, no other writer',
                   minimum=8)
+    rwk = ctx.rule('R-WAKE', 'condition-variable discipline: Submit notifies after the enqueue; setting the stopped bit '
+                   'is followed by notify_all; a worker sleeps only after seeing the queue empty and the pool not '
+                   'stopped under the same lock hold', minimum=6)
+    rff = ctx.rule('R-FIFO', 'Submit appends at the back of the queue the workers pop from the front', minimum=2)
+    rja = ctx.rule('R-JOINALL', 'Wait() joins every worker and none is detached', minimum=2)
+    rls = ctx.rule('R-LISTSPEC', 'detail::List implements the sequence it stands for (PushBack appends, PushFront '
+                   'prepends, PopFront removes the first, Empty, move constructor) and re-establishes its '
+                   'representation invariant: abstract interpretation over an explicit heap, lengths 0..4 + small-model '
+                   'argument', minimum=24)
     for cfg, fb in sorted(fbs.items()):
         P = 'yaclib::FairThreadPool'
+        ctx.guard(lambda: lib_exec.check_pool_wake(ctx, fb, rwk, rff, rja))
+        ctx.guard(lambda: lib_list.check_list_spec(ctx, fb, rls))
         ctx.guard(lambda: lib_exec.check_pool_count(ctx, fb, rc))
         ctx.guard(lambda: lib_exec.check_submit_linear(ctx, fb, rl, lambda f: f.clsq == P))
         deq = [f for f in fb.fn.values() if f.clsq == P and f.n in ('Loop', 'HardStop') and f.cfg is not None]
